@@ -32,6 +32,8 @@ type Store struct {
 	Fail func(op string, key uint, n int) bool
 	// OnSave observes raw values at the boundary; Mu held.
 	OnSave func(key uint, raw []byte)
+	// PreCopy runs at the entry of Save, before the value is read, without lock.
+	PreCopy func()
 	// Inner, when set, is the real store behind the map mirror (FileSystem).
 	Inner Persistence
 }
@@ -127,6 +129,9 @@ func (s *Store) Load(key uint) ([]byte, error) {
 
 // Save implements mqtt.Persistence.
 func (s *Store) Save(key uint, value net.Buffers) error {
+	if s.PreCopy != nil {
+		s.PreCopy() // widens the window in which the caller's buffers are still unread
+	}
 	var flat []byte
 	for _, b := range value {
 		flat = append(flat, b...)
